@@ -89,6 +89,8 @@ def gen_case(rng, focus, big=False):
     for i in range(nruns):
         run = {'outcomes': gen_outcomes(rng, n, 0.8 if focus == 'C04' else 0.65),
                'strategy': rng.choice(strategies), 'seed': rng.randrange(1 << 30)}
+        if rng.random() < 0.35:
+            run['tie_mod'] = rng.choice([2, 2, 3])
         if i > 0:
             run['lost'] = [t for t in range(n) if rng.random() < 0.3]
         runs.append(run)
@@ -121,6 +123,13 @@ CORPUS = [
     {'n': 3, 'hard': [[], [0], [1]], 'soft': [[], [], []], 'workers': 2,
      'runs': [{'outcomes': ['done', 'done', 'done'], 'strategy': 'uniform', 'seed': 11},
               {'outcomes': ['done', 'raise', 'done'], 'lost': [1], 'strategy': 'master_last', 'seed': 12}]},
+    # C04: clock tie between the end of a dependency and the start of its dependent: nothing to re-run
+    {'n': 2, 'hard': [[], [0]], 'soft': [[], []], 'workers': 1,
+     'runs': [{'outcomes': ['done', 'done'], 'strategy': 'uniform', 'seed': 15, 'tie_mod': 3},
+              {'outcomes': ['done', 'done'], 'lost': [], 'strategy': 'uniform', 'seed': 16}]},
+    {'n': 3, 'hard': [[], [0], [0]], 'soft': [[], [], [1]], 'workers': 1,
+     'runs': [{'outcomes': ['done', 'done', 'done'], 'strategy': 'uniform', 'seed': 17, 'tie_mod': 2},
+              {'outcomes': ['done', 'done', 'done'], 'lost': [], 'strategy': 'pct', 'seed': 18}]},
     # C04: a soft dependency skipped in this run has no clock
     {'n': 4, 'hard': [[], [0], [], []], 'soft': [[], [], [], [1, 2]], 'workers': 2,
      'runs': [{'outcomes': ['done', 'done', 'done', 'done'], 'strategy': 'uniform', 'seed': 13},
@@ -393,6 +402,17 @@ def run(ctx, focus):
             ctx.mismatch(f'the recorded trace of run {run_["irun"]} ({run_["result"]}, {len(run_["trace"])} '
                          f'events) is not a trace of the scheduler model :: {brief(case)}',
                          replay_case(case, run_))
+    if ctx.corr_broken and not [v for v in ctx.violations if v[0] == 'oracle']:
+        # the model no longer describes the code: search for a failing input with the oracle only
+        extra = [gen_case(ctx.rng, focus, big=(i % 3 == 0)) for i in range(900)]
+        res2, hung2, _, _ = run_impl(ctx, extra, timeout=90)
+        for case, res in zip(extra, res2):
+            if res['ok']:
+                for run_ in res['runs']:
+                    ORACLES[focus](ctx, case, run_)
+        ctx.count('search_phase_cases', len(res2))
+        ctx.notes.append(f'search phase after a correspondence break: {len(res2)} more histories run '
+                         f'through the oracle only')
     if focus == 'C03':
         from vp import scheddriver
         scheddriver.run(ctx)
